@@ -2,7 +2,7 @@
 from harness import exchange_check as xc
 
 TRUSTED_EXTRA = xc.TRUSTED_EXTRA
-PLAN = [('mixed', 'medium', 60, 1500), ('loans', 'medium', 50, 1200), ('fees', 'small', 40, 800), ('boundary', 'small', 60, 1500), ('reconfig', 'small', 20, 300), ('cancelrepay', 'small', 20, 300), ('unpriceable', 'small', 24, 300)]
+PLAN = [('mixed', 'medium', 60, 1500), ('loans', 'medium', 50, 1200), ('fees', 'small', 40, 800), ('boundary', 'small', 60, 1500), ('reconfig', 'small', 20, 300), ('cancelrepay', 'small', 20, 300), ('unpriceable', 'small', 24, 300), ('neginit', 'small', 24, 300)]
 
 
 def run(chk):
